@@ -25,6 +25,18 @@ def toks_of(exprs):
     return refreader.flatten(refreader.forest_to_nested(exprs))
 
 
+def _arm_handlers():
+    signal.signal(signal.SIGALRM, _alarm)
+    signal.signal(signal.SIGVTALRM, _alarm)
+
+
+def _set_timers(limit_s):
+    """The limit is CPU time of this process (the machine may be loaded);
+    wall time is limited ten times as generously, for a call that sleeps."""
+    signal.setitimer(signal.ITIMER_VIRTUAL, limit_s)
+    signal.setitimer(signal.ITIMER_REAL, 10 * limit_s)
+
+
 def enumerate_proposals(mods, exprs, muts, limit_s=5.0, max_per_node=200):
     """Yield dicts: mut, idx (BFS index, 1-based), node, simp | error, dt.
     Every mutator call runs under a watchdog of `limit_s` seconds."""
@@ -33,12 +45,12 @@ def enumerate_proposals(mods, exprs, muts, limit_s=5.0, max_per_node=200):
         mods['smtlib'].collect_information(exprs)
     except Exception:  # noqa: intolerance of odd shapes is C04's business
         return
-    signal.signal(signal.SIGALRM, _alarm)
+    _arm_handlers()
     for idx, node in enumerate(nodes.bfs(exprs), 1):
         for m in muts:
             name = type(m).__name__
-            t0 = time.time()
-            signal.setitimer(signal.ITIMER_REAL, limit_s)
+            t0 = time.process_time()
+            _set_timers(limit_s)
             props = []
             err = None
             try:
@@ -59,8 +71,8 @@ def enumerate_proposals(mods, exprs, muts, limit_s=5.0, max_per_node=200):
             except Exception as e:  # noqa: costs only this mutator
                 err = type(e).__name__ + ': ' + str(e)
             finally:
-                signal.setitimer(signal.ITIMER_REAL, 0)
-            dt = time.time() - t0
+                _set_timers(0)
+            dt = time.process_time() - t0
             if err:
                 yield {'mut': name, 'idx': idx, 'node': node, 'error': err,
                        'dt': dt, 'simp': None, 'global': False}
@@ -74,8 +86,8 @@ def apply(mods, exprs, simp, limit_s=5.0):
     consumes identity keys).  Returns (result | None, error | None)."""
     mu = mods['mutator_utils']
     s = mu.Simplification(dict(simp.substs), list(simp.fresh_vars))
-    signal.signal(signal.SIGALRM, _alarm)
-    signal.setitimer(signal.ITIMER_REAL, limit_s)
+    _arm_handlers()
+    _set_timers(limit_s)
     try:
         return mu.apply_simp(exprs, s), None
     except Timeout:
@@ -83,4 +95,4 @@ def apply(mods, exprs, simp, limit_s=5.0):
     except Exception as e:  # noqa
         return None, type(e).__name__ + ': ' + str(e)
     finally:
-        signal.setitimer(signal.ITIMER_REAL, 0)
+        _set_timers(0)
